@@ -46,6 +46,20 @@ pub struct ReplayFile {
     pub trace: Vec<String>,
     #[serde(default)]
     pub note: String,
+    /// tier whose bounds decoded the case ("quick" / "thorough"); generators take some bounds from the tier, so a case must be
+    /// replayed under the tier that found it (files without the field: the tier of the replaying run)
+    #[serde(default)]
+    pub tier: String,
+}
+
+impl ReplayFile {
+    pub fn tier_or(&self, default: Tier) -> Tier {
+        match self.tier.as_str() {
+            "quick" => Tier::Quick,
+            "thorough" => Tier::Thorough,
+            _ => default,
+        }
+    }
 }
 
 /// Where evidence and replay files go (default: the verif directory; VERIF_OUT redirects them, used when
@@ -312,6 +326,8 @@ pub struct Violation {
     pub case: CaseId,
     pub fail: Fail,
     pub driver: String,
+    /// tier whose bounds decoded the case (corpus files and fuzz artifacts may differ from the tier of the run)
+    pub tier: Option<Tier>,
 }
 
 pub struct RunOptions {
@@ -348,6 +364,7 @@ pub struct CtxSummary {
 }
 
 fn write_replay(prop: &dyn Property, v: &Violation, known: &[String], tier: Tier) -> PathBuf {
+    let tier = v.tier.unwrap_or(tier);
     let (_, summary) = run_one(prop, &v.case, tier, known, true, true);
     let dir = out_dir().join("replays");
     let _ = std::fs::create_dir_all(&dir);
@@ -362,6 +379,7 @@ fn write_replay(prop: &dyn Property, v: &Violation, known: &[String], tier: Tier
         signature: v.fail.signature.clone(),
         trace: summary.trace,
         note: format!("found by driver {}", v.driver),
+        tier: tier.name().to_string(),
     };
     let _ = std::fs::write(&path, serde_json::to_string_pretty(&rf).unwrap_or_default());
     path
@@ -386,7 +404,7 @@ pub fn replay(prop: &dyn Property, path: &Path) -> i32 {
         .filter(|e| e.status == "open")
         .map(|e| e.signature)
         .collect();
-    let tier = Tier::Thorough;
+    let tier = rf.tier_or(Tier::Thorough);
     let (r, summary) = run_one(prop, &rf.case, tier, &known, true, true);
     for l in summary.trace.iter() {
         println!("  {}", l);
@@ -443,7 +461,7 @@ pub fn run(prop: &dyn Property, opt: &RunOptions) -> i32 {
             let p = verif_dir().join(w);
             if let Ok(s) = std::fs::read_to_string(&p) {
                 if let Ok(rf) = serde_json::from_str::<ReplayFile>(&s) {
-                    let (r, summary) = run_one(prop, &rf.case, tier, &known_open, false, true);
+                    let (r, summary) = run_one(prop, &rf.case, rf.tier_or(tier), &known_open, false, true);
                     *drivers.entry("known_witness".into()).or_insert(0) += 1;
                     match r {
                         CaseRun::Ok => {
@@ -455,6 +473,7 @@ pub fn run(prop: &dyn Property, opt: &RunOptions) -> i32 {
                             case: rf.case.clone(),
                             fail: f,
                             driver: "known_witness".into(),
+                            tier: Some(rf.tier_or(tier)),
                         }),
                         CaseRun::HarnessBug(p) => inconclusive = Some(format!("harness bug: {} at {}:{}", p.message, p.file, p.line)),
                     }
@@ -484,7 +503,7 @@ pub fn run(prop: &dyn Property, opt: &RunOptions) -> i32 {
             CaseId::Choices { hex } => from_hex(hex),
             _ => vec![],
         };
-        let mut ctx = Ctx::new(&bytes, tier, &known_open);
+        let mut ctx = Ctx::new(&bytes, rf.tier_or(tier), &known_open);
         let r = run_guarded(prop, &rf.case, &mut ctx);
         shared.absorb(&ctx, || rf.case.clone());
         *drivers.entry("regress".into()).or_insert(0) += 1;
@@ -494,6 +513,7 @@ pub fn run(prop: &dyn Property, opt: &RunOptions) -> i32 {
                 case: rf.case.clone(),
                 fail: f,
                 driver: format!("regress:{}", p.file_name().and_then(|n| n.to_str()).unwrap_or("")),
+                tier: Some(rf.tier_or(tier)),
             }),
             CaseRun::HarnessBug(p) => inconclusive = Some(format!("harness bug: {} at {}:{}", p.message, p.file, p.line)),
         }
@@ -531,7 +551,7 @@ pub fn run(prop: &dyn Property, opt: &RunOptions) -> i32 {
                                             Some(v) => matches!(&v.case, CaseId::Enum { index: i, .. } if *i > index),
                                         };
                                         if better {
-                                            *g = Some(Violation { case, fail: f, driver: format!("enum:{name}") });
+                                            *g = Some(Violation { case, fail: f, driver: format!("enum:{name}"), tier: None });
                                         }
                                         shared.stop.store(true, Ordering::Relaxed);
                                         break;
@@ -642,7 +662,7 @@ pub fn run(prop: &dyn Property, opt: &RunOptions) -> i32 {
                             let case = CaseId::choices(&value);
                             let (r, _) = run_one(prop, &case, tier, known_open, false, true);
                             if let CaseRun::Fail(f) = r {
-                                results.lock().unwrap().push((shard, Violation { case, fail: f, driver: format!("proptest shard {shard}") }));
+                                results.lock().unwrap().push((shard, Violation { case, fail: f, driver: format!("proptest shard {shard}"), tier: None }));
                             } else {
                                 *shared.harness_bug.lock().unwrap() =
                                     Some("shrunk counterexample did not reproduce (non-deterministic case?)".to_string());
@@ -676,12 +696,13 @@ pub fn run(prop: &dyn Property, opt: &RunOptions) -> i32 {
             for a in rep.crash_artifacts.iter() {
                 if let Ok(bytes) = std::fs::read(a) {
                     let case = CaseId::choices(&bytes);
-                    let (r, _) = run_one(prop, &case, tier, &known_open, false, true);
+                    // the fuzz target decodes its inputs with the quick tier's bounds
+                    let (r, _) = run_one(prop, &case, Tier::Quick, &known_open, false, true);
                     match r {
                         CaseRun::Fail(f) => {
                             reproduced += 1;
                             if violations.is_empty() {
-                                violations.push(Violation { case, fail: f, driver: format!("libfuzzer artifact {}", a.display()) });
+                                violations.push(Violation { case, fail: f, driver: format!("libfuzzer artifact {}", a.display()), tier: Some(Tier::Quick) });
                             }
                         }
                         CaseRun::HarnessBug(p) => inconclusive = Some(format!("harness bug on fuzz artifact: {} at {}:{}", p.message, p.file, p.line)),
